@@ -108,7 +108,10 @@ def xml_member(gen, name, t, v, ns, pref):
         if isinstance(v, dict) and '__rt__' in v:
             # an instance of a subclass where its base is declared: the type marker, then the subclass' fields
             t = v['__rt__']
-            xt = ' xsi:type="%s:%s"' % (pref(t.get('ns', gen.tns)), t['name'])
+            # (the marker's prefix is bound on the element itself, always with the same literal: what it denotes is decided by
+            #  the binding in scope at that element, never by the text of the attribute)
+            pref(t.get('ns', gen.tns))
+            xt = ' xmlns:p="%s" xsi:type="p:%s"' % (t.get('ns', gen.tns), t.get('tname', t['name']))
         return '%s<%s%s%s>%s</%s>' % (_between(), q, xt, xml_attrs(t, v), xml_fields(gen, t, v, pref), q)
     if k == 'arr':
         it = t['of']
